@@ -428,6 +428,7 @@ func checkC11(c *Ctx) {
 	c.checkC11Writers(handlerOfKind)
 	c.checkC11Login(handlerOfKind)
 	c.checkSenderHeader()
+	c.checkLongPollSerialised()
 }
 
 func keys(m map[string]bool) []string {
